@@ -167,24 +167,27 @@ Record rstate := mk_rstate {
   r_cid : bytes;             (* LocalConnectionIDForInboundRecords *)
   r_cidneg : bool;           (* State13.CID.Negotiated *)
   r_rrc : bool;              (* RRCNegotiated *)
-  r_closed : bool
+  r_closed : bool;
+  r_estab : bool             (* handshakeEstablished: the handshake completed successfully *)
 }.
 
 Definition rinit (cid : bytes) (cidneg rrc : bool) : rstate :=
-  mk_rstate 0 None [] [] [] [] cid cidneg rrc false.
+  mk_rstate 0 None [] [] [] [] cid cidneg rrc false false.
 
 Definition with_wins (s : rstate) (ws : list wentry) : rstate :=
-  mk_rstate (r_epoch s) (r_cur s) (r_old s) ws (r_high s) (r_queue s) (r_cid s) (r_cidneg s) (r_rrc s) (r_closed s).
+  mk_rstate (r_epoch s) (r_cur s) (r_old s) ws (r_high s) (r_queue s) (r_cid s) (r_cidneg s) (r_rrc s) (r_closed s) (r_estab s).
 Definition with_high (s : rstate) (hs : list N) : rstate :=
-  mk_rstate (r_epoch s) (r_cur s) (r_old s) (r_wins s) hs (r_queue s) (r_cid s) (r_cidneg s) (r_rrc s) (r_closed s).
+  mk_rstate (r_epoch s) (r_cur s) (r_old s) (r_wins s) hs (r_queue s) (r_cid s) (r_cidneg s) (r_rrc s) (r_closed s) (r_estab s).
 Definition with_queue (s : rstate) (q : list bytes) : rstate :=
-  mk_rstate (r_epoch s) (r_cur s) (r_old s) (r_wins s) (r_high s) q (r_cid s) (r_cidneg s) (r_rrc s) (r_closed s).
+  mk_rstate (r_epoch s) (r_cur s) (r_old s) (r_wins s) (r_high s) q (r_cid s) (r_cidneg s) (r_rrc s) (r_closed s) (r_estab s).
 Definition with_closed (s : rstate) : rstate :=
-  mk_rstate (r_epoch s) (r_cur s) (r_old s) (r_wins s) (r_high s) (r_queue s) (r_cid s) (r_cidneg s) (r_rrc s) true.
+  mk_rstate (r_epoch s) (r_cur s) (r_old s) (r_wins s) (r_high s) (r_queue s) (r_cid s) (r_cidneg s) (r_rrc s) true (r_estab s).
 Definition with_epoch (s : rstate) (e : N) : rstate :=
-  mk_rstate e (r_cur s) (r_old s) (r_wins s) (r_high s) (r_queue s) (r_cid s) (r_cidneg s) (r_rrc s) (r_closed s).
+  mk_rstate e (r_cur s) (r_old s) (r_wins s) (r_high s) (r_queue s) (r_cid s) (r_cidneg s) (r_rrc s) (r_closed s) (r_estab s).
+Definition with_estab (s : rstate) : rstate :=
+  mk_rstate (r_epoch s) (r_cur s) (r_old s) (r_wins s) (r_high s) (r_queue s) (r_cid s) (r_cidneg s) (r_rrc s) (r_closed s) true.
 Definition with_ext (s : rstate) (cid : bytes) (neg rrc : bool) : rstate :=
-  mk_rstate (r_epoch s) (r_cur s) (r_old s) (r_wins s) (r_high s) (r_queue s) cid neg rrc (r_closed s).
+  mk_rstate (r_epoch s) (r_cur s) (r_old s) (r_wins s) (r_high s) (r_queue s) cid neg rrc (r_closed s) (r_estab s).
 
 Definition mem_N (e : N) (l : list N) : bool := existsb (N.eqb e) l.
 
@@ -195,7 +198,7 @@ Definition install_read (s : rstate) (e : N) : rstate :=
               | Some p => if (p =? e) || mem_N p (r_old s) then r_old s else r_old s ++ [p]
               | None => r_old s
               end in
-  mk_rstate (r_epoch s) (Some e) old' (r_wins s) (r_high s) (r_queue s) (r_cid s) (r_cidneg s) (r_rrc s) (r_closed s).
+  mk_rstate (r_epoch s) (Some e) old' (r_wins s) (r_high s) (r_queue s) (r_cid s) (r_cidneg s) (r_rrc s) (r_closed s) (r_estab s).
 
 (* TrafficKeyState.Read(epoch) found: hasInboundRecordProtection for LocalVersion 1.3 *)
 Definition has_gen (s : rstate) (e : N) : bool :=
@@ -348,7 +351,10 @@ Section Model.
      handleRecordContent; processIncomingPacket sends the response alert *)
   Definition dispatch (W : nat) (prot : bool) (s : rstate) (e q t : N) (body : bytes) : rstate * list out :=
     if t =? 22 then
-      (if hs_ok body then (mark W prot s e q, [OMark e q; OHs e q body]) else (s, []))
+      (* bufferHandshakeRecord: once the handshake is complete an unprotected handshake record is
+         dropped before reassembly (no commit, nothing reaches the post-handshake state machine) *)
+      (if r_estab s && (e =? 0) then (s, [])
+       else if hs_ok body then (mark W prot s e q, [OMark e q; OHs e q body]) else (s, []))
     else
     match decode_content t body with
     | CBad => if e =? 0 then (s, []) else (s, [OAlertOut 2 50; OErr])
@@ -499,6 +505,7 @@ Section Model.
   | Arrive (d : bytes)       (* a datagram read from the socket *)
   | InstallRead (e : N)      (* TrafficKeys.Install(nil, generation of epoch e): handshake keys, application keys, received KeyUpdate *)
   | SetRemoteEpoch (e : N)
+  | SetEstablished           (* the handshake completed (handshakeEstablished) *)
   | SetExt (cid : bytes) (neg rrc : bool)   (* CommitNegotiatedExtensions: connection id expected on inbound records, RRC *)
   | Drain.                   (* handleQueuedPackets *)
 
@@ -507,6 +514,7 @@ Section Model.
     | Arrive d => recv13 W s d
     | InstallRead e => (install_read s e, [])
     | SetRemoteEpoch e => (with_epoch s e, [])
+    | SetEstablished => (with_estab s, [])
     | SetExt cid neg rrc => (with_ext s cid neg rrc, [])
     | Drain => if r_closed s then (s, []) else recv_list W false (with_queue s []) (r_queue s)
     end.
